@@ -33,17 +33,18 @@ static struct nv_ctens nv_tens_empty(void) { struct nv_ctens t; t.rows = 0; t.co
 static struct nv_cindices nv_make_features(const struct nv_cdataset* d) { struct nv_cindices s; s.id = nv_nondet_uint64_t(); s.size = nv_nondet_int64_t(); return s; }
 
 #define NV_DS_FRESH(d) (__CPROVER_is_fresh(d, sizeof(*(d))) && __CPROVER_is_fresh((d)->m_pool, sizeof(struct nv_cpool)))
+/* contracts name the parameters through NV_ARG_<fn>_<k> (k-th parameter, self first): a renamed parameter does not break them */
 #define NV_CONTRACT_dataset_concurrency \
 __CPROVER_requires(NV_DS_FRESH(self)) __CPROVER_assigns() \
 __CPROVER_ensures(__CPROVER_return_value == self->m_pool->size)
 #define NV_CONTRACT_base_iter_ctor \
-__CPROVER_requires(__CPROVER_is_fresh(self, sizeof(*self)) && NV_DS_FRESH(dataset)) __CPROVER_assigns(self->m_dataset) \
-__CPROVER_ensures(self->m_dataset == dataset)
+__CPROVER_requires(__CPROVER_is_fresh(self, sizeof(*self)) && NV_DS_FRESH(NV_ARG_base_iter_ctor_1)) __CPROVER_assigns(self->m_dataset) \
+__CPROVER_ensures(self->m_dataset == NV_ARG_base_iter_ctor_1)
 /* concurrency() of an iterator is the size of the pool of ITS dataset: the pool base_dataset_iterator_t::map runs on (base_map target) */
 #define NV_CONTRACT_base_concurrency \
 __CPROVER_requires(__CPROVER_is_fresh(self, sizeof(*self)) && NV_DS_FRESH(self->m_dataset)) __CPROVER_assigns() \
 __CPROVER_ensures(__CPROVER_return_value == self->m_dataset->m_pool->size)
-#define NV_TARGETS_ITER_BUILT \
+#define NV_TARGETS_ITER_BUILT(dataset, samples) \
   (self->m_dataset == dataset && self->m_samples.id == samples.id && self->m_samples.size == samples.size \
    && self->m_targets_buffers.size == dataset->m_pool->size && self->m_targets.rows == 0 && self->m_batch >= 1 \
    && (dataset->target.valid ? (self->m_targets_stats.kind == NV_STATS_TARGETS && self->m_targets_stats.ds == dataset->id && self->m_targets_stats.samples == samples.id) \
@@ -51,16 +52,18 @@ __CPROVER_ensures(__CPROVER_return_value == self->m_dataset->m_pool->size)
 /* one per-thread target buffer per worker of the dataset's pool; the samples are the given ones; no cache yet; batch() >= 1;
  * the scaling statistics are those of (this dataset, these samples) */
 #define NV_CONTRACT_targets_iter_ctor \
-__CPROVER_requires(__CPROVER_is_fresh(self, sizeof(*self)) && NV_DS_FRESH(dataset)) __CPROVER_assigns(__CPROVER_object_whole(self)) \
-__CPROVER_ensures(NV_TARGETS_ITER_BUILT)
+__CPROVER_requires(__CPROVER_is_fresh(self, sizeof(*self)) && NV_DS_FRESH(NV_ARG_targets_iter_ctor_1)) __CPROVER_assigns(__CPROVER_object_whole(self)) \
+__CPROVER_ensures(NV_TARGETS_ITER_BUILT(NV_ARG_targets_iter_ctor_1, NV_ARG_targets_iter_ctor_2))
+#define NV_FDS NV_ARG_flatten_iter_ctor_1
+#define NV_FSM NV_ARG_flatten_iter_ctor_2
 #define NV_CONTRACT_flatten_iter_ctor \
-__CPROVER_requires(__CPROVER_is_fresh(self, sizeof(*self)) && NV_DS_FRESH(dataset)) __CPROVER_assigns(__CPROVER_object_whole(self)) \
-__CPROVER_ensures(NV_TARGETS_ITER_BUILT) \
-__CPROVER_ensures(self->m_flatten_buffers.size == dataset->m_pool->size && self->m_flatten.rows == 0) \
-__CPROVER_ensures(self->m_flatten_stats.kind == NV_STATS_FLATTEN && self->m_flatten_stats.ds == dataset->id && self->m_flatten_stats.samples == samples.id)
+__CPROVER_requires(__CPROVER_is_fresh(self, sizeof(*self)) && NV_DS_FRESH(NV_FDS)) __CPROVER_assigns(__CPROVER_object_whole(self)) \
+__CPROVER_ensures(NV_TARGETS_ITER_BUILT(NV_FDS, NV_FSM)) \
+__CPROVER_ensures(self->m_flatten_buffers.size == NV_FDS->m_pool->size && self->m_flatten.rows == 0) \
+__CPROVER_ensures(self->m_flatten_stats.kind == NV_STATS_FLATTEN && self->m_flatten_stats.ds == NV_FDS->id && self->m_flatten_stats.samples == NV_FSM.id)
 #define NV_CONTRACT_select_iter_ctor \
-__CPROVER_requires(__CPROVER_is_fresh(self, sizeof(*self)) && NV_DS_FRESH(dataset)) __CPROVER_assigns(__CPROVER_object_whole(self)) \
-__CPROVER_ensures(self->m_dataset == dataset && self->m_buffers.size == dataset->m_pool->size)
+__CPROVER_requires(__CPROVER_is_fresh(self, sizeof(*self)) && NV_DS_FRESH(NV_ARG_select_iter_ctor_1)) __CPROVER_assigns(__CPROVER_object_whole(self)) \
+__CPROVER_ensures(self->m_dataset == NV_ARG_select_iter_ctor_1 && self->m_buffers.size == NV_ARG_select_iter_ctor_1->m_pool->size)
 
 /* ---- accumulators --------------------------------------------------------------------------------------------------------- */
 struct nv_clacc { struct nv_ctens m_outputs, m_vgrads, m_values; double m_vm1; struct nv_ctens m_gb1, m_gW1; };     /* linear::accumulator_t */
@@ -77,10 +80,10 @@ static void nv_lacc_clear(struct nv_clacc* a) { a->m_vm1 = 0.0; a->m_gb1.zeroed 
  * comes after the resize) */
 #define NV_CONTRACT_linear_acc_ctor \
 __CPROVER_requires(__CPROVER_is_fresh(self, sizeof(*self))) __CPROVER_assigns(__CPROVER_object_whole(self)) \
-__CPROVER_ensures(NV_LACC_BUILT(*self, isize, tsize))
+__CPROVER_ensures(NV_LACC_BUILT(*self, NV_ARG_linear_acc_ctor_1, NV_ARG_linear_acc_ctor_2))
 #define NV_CONTRACT_gboost_acc_ctor \
 __CPROVER_requires(__CPROVER_is_fresh(self, sizeof(*self))) __CPROVER_assigns(__CPROVER_object_whole(self)) \
-__CPROVER_ensures(NV_GACC_BUILT(*self, tsize))
+__CPROVER_ensures(NV_GACC_BUILT(*self, NV_ARG_gboost_acc_ctor_1))
 
 /* ---- objectives ----------------------------------------------------------------------------------------------------------- */
 struct nv_closs { char unused; };
@@ -122,28 +125,31 @@ static struct nv_cgaccs nv_gaccs_make(uint64_t n, struct nv_cgacc v) { struct nv
 #define NV_ROWS_PER_SAMPLE(t, it) ((t).rows == (it)->m_samples.size && (t).tail == __CPROVER_uninterpreted_dims_pack((it)->m_dataset->tdims.d0, (it)->m_dataset->tdims.tail))
 /* linear::function_t(iterator, loss, l1, l2): dimension (inputs + 1) * targets; one accumulator per worker of the iterator's pool, each
  * shaped (targets, targets x inputs) and zeroed; the iterator / loss / regularisation factors are the given ones */
+#define NV_LIT NV_ARG_linear_fun_ctor_1
 #define NV_CONTRACT_linear_fun_ctor \
-__CPROVER_requires(__CPROVER_is_fresh(self, sizeof(*self)) && NV_ITER_FRESH(iterator) && __CPROVER_is_fresh(loss, sizeof(*loss))) \
-__CPROVER_requires(iterator->m_dataset->columns < INT64_MAX) \
+__CPROVER_requires(__CPROVER_is_fresh(self, sizeof(*self)) && NV_ITER_FRESH(NV_LIT) && __CPROVER_is_fresh(NV_ARG_linear_fun_ctor_2, sizeof(*NV_ARG_linear_fun_ctor_2))) \
+__CPROVER_requires(NV_LIT->m_dataset->columns < INT64_MAX) \
 __CPROVER_assigns(__CPROVER_object_whole(self)) \
-__CPROVER_ensures(self->m_iterator == iterator && self->m_loss == loss && NV_SAME(self->m_l1reg, l1reg) && NV_SAME(self->m_l2reg, l2reg)) \
-__CPROVER_ensures(self->m_isize == iterator->m_dataset->columns && self->m_tsize == NV_TDIMS_SIZE(iterator)) \
-__CPROVER_ensures(self->base.m_size == NV_IMUL(iterator->m_dataset->columns + 1, NV_TDIMS_SIZE(iterator))) \
-__CPROVER_ensures(self->m_accumulators.size == NV_ITER_POOL(iterator) && NV_LACC_BUILT(self->m_accumulators.elem, iterator->m_dataset->columns, NV_TDIMS_SIZE(iterator)))
+__CPROVER_ensures(self->m_iterator == NV_LIT && self->m_loss == NV_ARG_linear_fun_ctor_2 && NV_SAME(self->m_l1reg, NV_ARG_linear_fun_ctor_3) && NV_SAME(self->m_l2reg, NV_ARG_linear_fun_ctor_4)) \
+__CPROVER_ensures(self->m_isize == NV_LIT->m_dataset->columns && self->m_tsize == NV_TDIMS_SIZE(NV_LIT)) \
+__CPROVER_ensures(self->base.m_size == NV_IMUL(NV_LIT->m_dataset->columns + 1, NV_TDIMS_SIZE(NV_LIT))) \
+__CPROVER_ensures(self->m_accumulators.size == NV_ITER_POOL(NV_LIT) && NV_LACC_BUILT(self->m_accumulators.elem, NV_LIT->m_dataset->columns, NV_TDIMS_SIZE(NV_LIT)))
 /* gboost objectives: per-sample buffers with one row per sample OF THE ITERATOR (not of the dataset / cluster); one accumulator per worker
  * of the iterator's pool, its gradient sum shaped like the parameter vector (size()) and zeroed */
-#define NV_GFUN_COMMON \
+#define NV_GFUN_COMMON(iterator, loss) \
 __CPROVER_requires(__CPROVER_is_fresh(self, sizeof(*self)) && NV_ITER_FRESH(iterator) && __CPROVER_is_fresh(loss, sizeof(*loss))) \
 __CPROVER_assigns(__CPROVER_object_whole(self)) \
 __CPROVER_ensures(self->m_iterator == iterator && self->m_loss == loss) \
 __CPROVER_ensures(self->m_values.rows == iterator->m_samples.size && NV_ROWS_PER_SAMPLE(self->m_vgrads, iterator))
-#define NV_GFUN_ACCS \
+#define NV_GFUN_ACCS(iterator) \
 __CPROVER_ensures(NV_ROWS_PER_SAMPLE(self->m_outputs, iterator)) \
 __CPROVER_ensures(self->m_accumulators.size == NV_ITER_POOL(iterator) && NV_GACC_BUILT(self->m_accumulators.elem, self->base.m_size))
-#define NV_CONTRACT_scale_fun_ctor NV_GFUN_COMMON NV_GFUN_ACCS \
-__CPROVER_requires(__CPROVER_is_fresh(cluster, sizeof(*cluster)) && __CPROVER_is_fresh(soutputs, sizeof(*soutputs)) && __CPROVER_is_fresh(woutputs, sizeof(*woutputs))) \
-__CPROVER_ensures(self->base.m_size == cluster->n_groups && self->m_cluster == cluster && self->m_soutputs == soutputs && self->m_woutputs == woutputs)
-#define NV_CONTRACT_bias_fun_ctor NV_GFUN_COMMON NV_GFUN_ACCS \
-__CPROVER_ensures(self->base.m_size == NV_TDIMS_SIZE(iterator))
-#define NV_CONTRACT_grads_fun_ctor NV_GFUN_COMMON \
-__CPROVER_ensures(self->base.m_size == NV_IMUL(iterator->m_samples.size, NV_TDIMS_SIZE(iterator)))
+#define NV_SA(k) NV_ARG_scale_fun_ctor_##k
+#define NV_CONTRACT_scale_fun_ctor \
+__CPROVER_requires(__CPROVER_is_fresh(NV_SA(3), sizeof(*NV_SA(3))) && __CPROVER_is_fresh(NV_SA(4), sizeof(*NV_SA(4))) && __CPROVER_is_fresh(NV_SA(5), sizeof(*NV_SA(5)))) \
+NV_GFUN_COMMON(NV_SA(1), NV_SA(2)) NV_GFUN_ACCS(NV_SA(1)) \
+__CPROVER_ensures(self->base.m_size == NV_SA(3)->n_groups && self->m_cluster == NV_SA(3) && self->m_soutputs == NV_SA(4) && self->m_woutputs == NV_SA(5))
+#define NV_CONTRACT_bias_fun_ctor NV_GFUN_COMMON(NV_ARG_bias_fun_ctor_1, NV_ARG_bias_fun_ctor_2) NV_GFUN_ACCS(NV_ARG_bias_fun_ctor_1) \
+__CPROVER_ensures(self->base.m_size == NV_TDIMS_SIZE(NV_ARG_bias_fun_ctor_1))
+#define NV_CONTRACT_grads_fun_ctor NV_GFUN_COMMON(NV_ARG_grads_fun_ctor_1, NV_ARG_grads_fun_ctor_2) \
+__CPROVER_ensures(self->base.m_size == NV_IMUL(NV_ARG_grads_fun_ctor_1->m_samples.size, NV_TDIMS_SIZE(NV_ARG_grads_fun_ctor_1)))
